@@ -37,3 +37,21 @@ def loop_time_call(e: ast.AST) -> bool:
 
 def queue_ref(e: ast.AST) -> bool:
     return isinstance(e, ast.Attribute) and e.attr == "_message_queue"
+
+
+def reuse(ctx, new_rule: str, fns, what: str, keep=None, module=None):
+    """Runs rule functions of another property and files their obligations under `new_rule`: a mechanism two properties
+    depend on is decided once, and a breach is reported under every property it breaks.  `keep(obligation)` filters."""
+    before = len(ctx.obligations)
+    for f in fns:
+        f(ctx)
+    new = ctx.obligations[before:]
+    del ctx.obligations[before:]
+    if keep is not None:
+        new = [o for o in new if keep(o)]
+    bad = [o for o in new if o.verdict != "HOLDS"]
+    for o in bad:
+        o.detail = (o.detail + " " if o.detail else "") + f"(via {o.rule})"
+        o.rule = new_rule
+        ctx.obligations.append(o)
+    ctx.check(not bad, new_rule, f"reuse:{what}", module, None, f"{what}: {len(new)} obligations of the shared mechanism hold", f"{len(bad)} obligations fail")
